@@ -44,7 +44,8 @@ def change(rng, counts=True):
     if r < 0.76:
         return "case", rng.choice(["g~", "gu", "gU", "g?"]) + (xmotion(rng, counts) if rng.random() < 0.7 else (V.textobj(rng) if counts else rng.choice(V.TEXTOBJS)))
     if r < 0.84:
-        return "i-session", "i" + rng.choice(TYPED) + "<esc>"
+        # one in four is left open: the end of the key string closes it, and '.' has to repeat it all the same
+        return "i-session", "i" + rng.choice(TYPED) + ("<esc>" if rng.random() < 0.75 else "")
     if r < 0.90:
         return "aAIoO-session", rng.choice(["a", "A", "I", "o", "O"]) + rng.choice(TYPED) + "<esc>"
     if r < 0.96:
